@@ -1,4 +1,6 @@
 import StepModel.Props.C14
+import StepModel.SkipEntry
+import StepModel.Generated.P21RWGen
 /-!
 C16 — working-session files round-trip populations with per-instance state.
 
@@ -359,6 +361,29 @@ theorem C16_file_second_save (wc : Bool) (asev : Inst → Sev) (prev s : FSess)
 theorem C16_header_merge_keeps_old (old new : List String) (h : headerReplaceBelow ≤ old.length) :
     mergeHeader old new = old := by
   unfold mergeHeader; rw [if_neg (by omega)]
+
+/-! ### the bytes of a skipped entry
+
+`ReadData1` / `ReadData2` get over an entry marked `D` with `SkipInstance( in, tmpbuf )` (checked by tools/extract.d/stepfile.py:
+"deleted instances are skipped").  On the byte-level reader model of C01/C03 that call consumes exactly the entry's text and
+its terminating `;` — whatever its string literals and comments contain — so the entries after a deleted one are read from
+their own first character (the class of seed C16-c1). -/
+
+open StepModel.P21 StepModel.P21.RLemmas StepModel.SkipEntry in
+theorem C16_deleted_entry_skipped {t : List Byte} (ht : EntryText t) (l rest : List Byte) :
+    skipInstance Generated.rwCfg (G l (t ++ 59 :: rest) false) = .ok (G (59 :: (t.reverse ++ l)) rest false) :=
+  skipInstance_entry Generated.rwCfg (by decide) ht l rest
+
+open StepModel.P21 StepModel.P21.Grammar StepModel.P21.RLemmas StepModel.SkipEntry in
+/-- `#2=I('a;b')` — a `;` inside a string literal — is such a text; so is `#2=I(/*;*/1)` -/
+example : EntryText ([35, 50, 61, 73, 40] ++ ((39 :: ([97, 59, 98] ++ [39])) ++ 41 :: [])) :=
+  .plain (by decide) (.plain (by decide) (.plain (by decide) (.plain (by decide) (.plain (by decide)
+    (.string (.nonq (by decide) (.nonq (by decide) (.nonq (by decide) .nil))) (by decide) (.plain (by decide) .nil))))))
+
+open StepModel.P21 StepModel.P21.RLemmas StepModel.SkipEntry in
+example : EntryText ([35, 50, 61, 73, 40] ++ ((47 :: 42 :: ([59] ++ [42, 47])) ++ [49, 41])) :=
+  .plain (by decide) (.plain (by decide) (.plain (by decide) (.plain (by decide) (.plain (by decide)
+    (.comment (by decide) (.plain (by decide) (.plain (by decide) .nil)))))))
 
 /-- `noStateSE` is not an editing state: such a node is not written at all (with a message) and is therefore lost.
     The property quantifies over complete / incomplete / new / deleted, so this is outside it; recorded as a witness. -/
